@@ -254,30 +254,35 @@ Qed.
 
 (* ---------------- names through the element handles (name setter, rename) ---------------- *)
 
-(* the name in the model graph is always documented; it changes exactly when the assignment is accepted *)
-Theorem elem_name_graph cls r m old s h g e :
-  lookup cls name_rules = Some (r, m) -> re_lang r old -> elem_set_name cls old s = ((h, g), e) ->
-  re_lang r g /\ (e = None -> h = s /\ g = s /\ re_lang r s) /\ (e <> None -> g = old /\ ~ re_lang r s).
+(* the name in the model graph is always documented; it changes exactly when the assignment is accepted; it is
+   rejected exactly when the new name is undocumented or (where the source tests it) already taken *)
+Theorem elem_name_graph cls r m old s taken h g e :
+  lookup cls name_rules = Some (r, m) -> re_lang r old -> elem_set_name cls old s taken = ((h, g), e) ->
+  re_lang r g /\ (e = None -> h = s /\ g = s /\ re_lang r s) /\
+  (e <> None -> g = old /\ (~ re_lang r s \/ (name_set_checks_unique = true /\ taken = true))).
 Proof.
   intros Hl Hold. unfold elem_set_name.
-  destruct (set_name cls (SStr s)) as [s'|x] eqn:E; intro X; injection X as Hh Hg He.
-  - apply set_name_stores_argument in E as E'. inversion E'; subst s'.
-    pose proof (proj1 (set_name_iff_lang cls r m s Hl) E) as L. subst h g e.
-    split; [exact L|]. split; [auto | intro C; exfalso; apply C; reflexivity].
-  - subst g e. split; [exact Hold|]. split; [discriminate|]. intros _. split; [reflexivity|].
-    intro L. apply (set_name_iff_lang cls r m s Hl) in L. congruence.
+  destruct (name_set_checks_unique && taken) eqn:U.
+  - intro X. injection X as Hh Hg He. subst g e. split; [exact Hold|]. split; [discriminate|].
+    intros _. split; [reflexivity|]. right. apply andb_true_iff in U. exact U.
+  - destruct (set_name cls (SStr s)) as [s'|x] eqn:E; intro X; injection X as Hh Hg He.
+    + apply set_name_stores_argument in E as E'. inversion E'; subst s'.
+      pose proof (proj1 (set_name_iff_lang cls r m s Hl) E) as L. subst h g e.
+      split; [exact L|]. split; [auto | intro C; exfalso; apply C; reflexivity].
+    + subst g e. split; [exact Hold|]. split; [discriminate|]. intros _. split; [reflexivity|]. left.
+      intro L. apply (set_name_iff_lang cls r m s Hl) in L. congruence.
 Qed.
 
 (* FULL STATEMENT: whatever name can be read after the call -- from the handle or from the model -- is documented.
    It holds of the code exactly when the setter validates before it caches (flag regenerated from
    fim/user/model_element.py); otherwise it is refuted by a witness. *)
 Definition handle_name_full : Prop :=
-  forall cls r m old s h g e, lookup cls name_rules = Some (r, m) -> re_lang r old ->
-    elem_set_name cls old s = ((h, g), e) -> re_lang r h /\ re_lang r g.
+  forall cls r m old s taken h g e, lookup cls name_rules = Some (r, m) -> re_lang r old ->
+    elem_set_name cls old s taken = ((h, g), e) -> re_lang r h /\ re_lang r g.
 
 Definition handle_name_refuted : Prop :=
   exists cls old s, set_name cls (SStr old) = Ok old /\
-    match elem_set_name cls old s with
+    match elem_set_name cls old s false with
     | ((h, g), Some _) => set_name cls (SStr h) <> Ok h /\ g = old
     | _ => False
     end.
@@ -286,11 +291,14 @@ Theorem handle_name_full_or_refuted :
   if name_setter_validates_first then handle_name_full else handle_name_refuted.
 Proof.
   destruct name_setter_validates_first eqn:F.
-  - intros cls r m old s h g e Hl Hold X. pose proof (elem_name_graph _ _ _ _ _ _ _ _ Hl Hold X) as (Hg & Hok & Herr).
+  - intros cls r m old s taken h g e Hl Hold X.
+    pose proof (elem_name_graph _ _ _ _ _ _ _ _ _ Hl Hold X) as (Hg & Hok & Herr).
     split; [|exact Hg]. unfold elem_set_name in X. rewrite F in X.
-    destruct (set_name cls (SStr s)) as [s'|x] eqn:E; injection X as Hh Hg' He.
-    + subst e. destruct (Hok eq_refl) as (_ & _ & L). subst h. exact L.
-    + subst h. exact Hold.
-  - exists (S"NodeSliver"), (S"n1"), (S"x"). unfold elem_set_name. rewrite F. vm_compute.
+    destruct (name_set_checks_unique && taken).
+    + injection X as Hh _ _. subst h. exact Hold.
+    + destruct (set_name cls (SStr s)) as [s'|x] eqn:E; injection X as Hh Hg' He.
+      * subst e. destruct (Hok eq_refl) as (_ & _ & L). subst h. exact L.
+      * subst h. exact Hold.
+  - exists (S"NodeSliver"), (S"n1"), (S"x"). unfold elem_set_name. rewrite F, andb_false_r. vm_compute.
     split; [reflexivity|]. split; [discriminate | reflexivity].
 Qed.
